@@ -116,7 +116,10 @@ def _install_roots_stub(ctx, single=False):
                 if isinstance(a, Root):
                     return scalar(a)
                 if isinstance(a, (list, tuple)) and any(isinstance(x, Root) for x in a):
-                    return [scalar(x) if isinstance(x, Root) else x for x in a]
+                    out = npshim._np.empty(len(a), dtype=object)
+                    for i, x in enumerate(a):
+                        out[i] = scalar(x) if isinstance(x, Root) else x
+                    return out.view(npshim.FArr)
                 if orig is not None:
                     return orig(self, a, *args, **kw)
                 return getattr(npshim._np, name)(a, *args, **kw)
